@@ -8,6 +8,8 @@ open Sio.Wire Sio.Reconnect
 
   {"op":"run","cfg":{"reconnection":b,"attempts":n,"delay":"p/q","delayMax":"p/q","rf":"p/q"},
    "inputs":[{"connect":{"conn":n,"nss":[str…]}},
+             {"connectNoWait":{"conn":n,"nss":[str…],"acc":[b…]}},   connect(wait=False), namespace i accepted iff acc[i]
+             {"nsEnd":str},                                          the server ends one namespace of several
              {"lose":"transportError|clientDisconnect|serverDisconnect|serverClose",
               "outs":["T"|"L"|{"served":[b…]}…],"rands":["p/q"…],"abortAt":null|n,"fuel":n}]}
   → {"events":[…],"connected":b,"task":b,"clean":b} | {"inapplicable":true}
@@ -64,6 +66,16 @@ def storedOfJson (j : Json) : Except String (Stored Nat) := do
 def inputOfJson (j : Json) : Except String (Input Nat) :=
   match j.getObjVal? "connect" with
   | .ok s => do let st ← storedOfJson s; pure (.connect st)
+  | .error _ =>
+  match j.getObjVal? "connectNoWait" with
+  | .ok s => do
+    let st ← storedOfJson s
+    let a ← (← s.getObjVal? "acc").getArr?
+    let acc ← a.toList.mapM (fun b => b.getBool?)
+    pure (.connectNoWait st acc)
+  | .error _ =>
+  match j.getObjVal? "nsEnd" with
+  | .ok n => do let ns ← strOfJson n; pure (.nsEnd ns)
   | .error _ => do
     let cause ← causeOfName (← (← j.getObjVal? "lose").getStr?)
     let outs ← (← j.getObjVal? "outs").getArr?
